@@ -471,3 +471,40 @@ sl_harness! {
         core::mem::forget(txs); core::mem::forget(st);
     }
 }
+
+// W8: another affiliate buys and sells again (possibly everything) inside the
+// window BEFORE the default affiliate's loss sale: the purchase still counts
+// as an acquisition; only the holdings at the end of the window matter for
+// "held".
+sl_harness! {
+    #[kani::unwind(6)]
+    fn c02_w_otherbuy_othersell_sale() {
+        let x = any_in(1, SH_MAX); let bb0 = any_in(0, SH_MAX);
+        let z = any_in(1, 2 * SH_MAX);
+        ks::assume(z <= bb0 + x);
+        let bb = bb0 + x - z; // b's holdings when the loss sale happens (may be 0)
+        let bd = any_in(1, SH_MAX);
+        let n = any_in(1, SH_MAX);
+        ks::assume(n <= bd);
+        let o1 = any_in(0, OFF_MAX); let g = any_in(0, 10);
+        let o0 = o1 + g; // the buy is at or before b's sale
+        let st = state_before_sale(bd, Some(bb), None);
+        let txs = vec![a_buy(1, x, SALE_DAY - o0, 0), a_sell(1, z, SALE_DAY - o1, 1), a_sale(0, n, 2)];
+        let r = get_superficial_loss_ratio(2, &txs, &st);
+        let in0 = o0 <= 30;
+        let acquired = if in0 { x } else { 0 };
+        let held = bd - n + bb;
+        match r {
+            Ok(res) => {
+                check_result(&res, n, acquired, held);
+                if let Some(rr) = &res {
+                    // the only buyer is b: the flag tells that b holds less than the denied share count
+                    assert!(rr.fewer_remaining_shares_than_sfl_shares == (bb < min3(n, acquired, held)));
+                }
+                core::mem::forget(res);
+            }
+            Err(_) => assert!(false, "no later sale: the scan must not reject"),
+        }
+        core::mem::forget(txs); core::mem::forget(st);
+    }
+}
